@@ -73,6 +73,8 @@ template <class L> class LabeledFamily : public IAlgoFamily {
   private:
     void reverse(const json &c, unsigned order, CaseResult &r) {
         const DG g = buildFromEnc<DG>(c.at("g"), order);
+        if (!inputAsSpecified(g, c.at("g"), r))
+            return;
         json before = Obj<DG>(g).exact();
         DG rev = g.getReversedGraph();
         if (encOf(rev) != c.at("out"))
@@ -85,6 +87,8 @@ template <class L> class LabeledFamily : public IAlgoFamily {
     }
     void toDirected(const json &c, unsigned order, CaseResult &r) {
         const UG u = buildFromEnc<UG>(c.at("g"), order);
+        if (!inputAsSpecified(u, c.at("g"), r))
+            return;
         DG d = u.getDirectedGraph();
         if (encOf(d) != c.at("out"))
             return r.fail("getDirectedGraph: " + diffNote(c.at("out"), encOf(d)));
@@ -94,18 +98,46 @@ template <class L> class LabeledFamily : public IAlgoFamily {
     }
     void toUndirected(const json &c, unsigned order, CaseResult &r) {
         const DG d = buildFromEnc<DG>(c.at("g"), order);
+        if (!inputAsSpecified(d, c.at("g"), r))
+            return;
         UG u(d);
         if (encOf(u) != c.at("out"))
             r.fail("LabeledUndirectedGraph(directed): " + diffNote(c.at("out"), encOf(u)));
     }
 
+    // C09 is relative: "a graph with 1+largest-index vertices (none for an empty container) equal to
+    // the one obtained by adding those edges one at a time".  That is judged on the real class;
+    // agreement with the specification's absolute result is reported as a note only.
+    template <class G, class Cont> void ctorOne(const Cont &cont, const json &want, const char *what, CaseResult &r) {
+        G built(cont);
+        size_t n = 0;
+        for (auto &e : cont) {
+            if constexpr (nolabel)
+                n = std::max<size_t>(n, 1 + std::max(e.first, e.second));
+            else
+                n = std::max<size_t>(n, 1 + std::max(std::get<0>(e), std::get<1>(e)));
+        }
+        G oneAtATime(n);
+        for (auto &e : cont) {
+            if constexpr (nolabel)
+                oneAtATime.addEdge(e.first, e.second);
+            else
+                oneAtATime.addEdge(std::get<0>(e), std::get<1>(e), std::get<2>(e));
+        }
+        if (built.getSize() != n)
+            return r.fail(std::string(GInfo<G>::directed ? "directed" : "undirected") + " constructor from " + what + ": " +
+                          std::to_string(built.getSize()) + " vertices instead of " + std::to_string(n));
+        if (!(built == oneAtATime) || built != oneAtATime || encOf(built) != encOf(oneAtATime))
+            return r.fail(std::string(GInfo<G>::directed ? "directed" : "undirected") + " constructor from " + what +
+                          " differs from adding the edges one at a time: " + diffNote(encOf(oneAtATime), encOf(built)));
+        if (encOf(built) != want)
+            r.diagnostics.push_back(std::string("constructor result differs from the specification's: ") +
+                                    diffNote(want, encOf(built)).substr(0, 200));
+    }
     template <class Cont> void ctorBoth(const Cont &cont, const json &c, const char *what, CaseResult &r) {
-        DG d(cont);
-        UG u(cont);
-        if (encOf(d) != c.at("outD"))
-            return r.fail(std::string("directed constructor from ") + what + ": " + diffNote(c.at("outD"), encOf(d)));
-        if (encOf(u) != c.at("outU"))
-            return r.fail(std::string("undirected constructor from ") + what + ": " + diffNote(c.at("outU"), encOf(u)));
+        ctorOne<DG>(cont, c.at("outD"), what, r);
+        if (r.ok)
+            ctorOne<UG>(cont, c.at("outU"), what, r);
     }
     void edgeList(const json &c, CaseResult &r) {
         using E = typename EdgeElem<L>::type;
@@ -315,6 +347,8 @@ template <class L> class LabeledFamily : public IAlgoFamily {
 
     template <class G> void subgraph(const json &c, unsigned order, CaseResult &r) {
         const G g = buildFromEnc<G>(c.at("g"), order);
+        if (!inputAsSpecified(g, c.at("g"), r))
+            return;
         std::unordered_set<VertexIndex> S;
         std::vector<VertexIndex> sv = c.at("S").get<std::vector<VertexIndex>>();
         if (order) {
@@ -344,6 +378,8 @@ template <class L> class LabeledFamily : public IAlgoFamily {
     }
     template <class G, class CG> void search(const json &c, unsigned order, bool directed, CaseResult &r) {
         const G g0 = buildFromEnc<G>(c.at("g"), order);
+        if (!inputAsSpecified(g0, c.at("g"), r))
+            return;
         const size_t n = g0.getSize();
         size_t E = 0;
         for (VertexIndex v = 0; v < n; ++v)
